@@ -136,7 +136,8 @@ def _validate_one(job):
     rc, out = _java(args, env=env, gc="-XX:+UseSerialGC", heap="3g", timeout=7200)
     shutil.rmtree(meta, ignore_errors=True)
     if rc != 0 or not os.path.exists(out_file):
-        return {"error": out[-4000:], "trace_file": trace_file}
+        i = out.find("Error:")
+        return {"error": (out[i:i + 2500] + "\n...\n" if i >= 0 else "") + out[-1500:], "trace_file": trace_file}
     with open(out_file) as f:
         res = json.load(f)
     if "statlist" in res:      # list of evaluated clause names -> counts
